@@ -75,6 +75,14 @@ class RetEval:
             else:
                 env[key] = v
             return True
+        if k == 'CompoundAssignOperator' and stmt['op'] in ('+=', '-=', '*='):
+            key = F.src(F.strip(stmt['c'][0]))
+            v = self.ev.eval(stmt['c'][1], env, frozenset())
+            if v is None or not isinstance(env.get(key), int):
+                env.pop(key, None)
+            else:
+                env[key] = {'+=': env[key] + v, '-=': env[key] - v, '*=': env[key] * v}[stmt['op']]
+            return True
         if k in ('BreakStmt', 'ContinueStmt', 'GotoStmt', 'SwitchStmt', 'ForStmt', 'WhileStmt', 'DoStmt'):
             raise F.AnalysisBroken('call-family case of MIR_insn_op_mode contains a %s the evaluator does not model' % k)
         return True
